@@ -355,6 +355,9 @@ func runC12(src sim.Source, o Opts) *Result {
 							fail("clone taken in request %s shows data of %v: %s", tok, ot, cl.first)
 						}
 						clones = append(clones, cl)
+						// the handler goes on using its own query values (parsed before the copy was taken, see observe):
+						// what it writes into them is not the copy's business
+						c.QueryParams().Set("afterclone", tok)
 						if pl.CloneLate && sv.Kind == model.KRoute {
 							c.SetHeader("X-After-Clone", tok)
 							c.Writer().Header().Del("X-Resp")
